@@ -65,8 +65,9 @@ Definition distance_ttl (obs sig : ttl) : option N :=
   | _, _ => None
   end.
 
-(* u16::checked_div *)
+(* u16::checked_div, u16::checked_rem *)
 Definition checked_div (a b : N) : option N := if b =? 0 then None else Some (a / b).
+Definition checked_rem (a b : N) : option N := if b =? 0 then None else Some (a mod b).
 
 (* WindowSize::distance_window_size(&self, other, mss)  — mss is the OBSERVED mss *)
 Definition distance_window_size (obs sig : window_size) (mss : option N) : option N :=
@@ -77,11 +78,13 @@ Definition distance_window_size (obs sig : window_size) (mss : option N) : optio
       match mss with
       | Some mss_value =>
           match checked_div a mss_value with
-          | Some ratio_other => high_or tq_low (b =? ratio_other)      (* `*b as u16 == ratio_other`: u8 -> u16 widening *)
+          | Some ratio_other =>     (* `*b as u16 == ratio_other && a.checked_rem(mss_value) == Some(0)` (fix a8d31d2) *)
+              high_or tq_low ((b =? ratio_other) && option_eqb N.eqb (checked_rem a mss_value) (Some 0))
           | None => Some tq_low
           end
       | None => Some tq_low
       end
+  | WValue a, WMod b => high_or tq_low (option_eqb N.eqb (checked_rem a b) (Some 0))      (* fix 91576de *)
   | WMod a, WMod b => high_or tq_low (a =? b)
   | WValue a, WValue b => high_or tq_low (a =? b)
   | _, WAny => Some tq_high
